@@ -143,3 +143,10 @@ Theorem C20_backend_buffer_example :
   = [[2;1;2]; [0;0;2]; [3;1;2]; [3;2;2]; [3;3;4]; [3;3;4]; [4;2;4]; [5;1;4]; [0;0;4]; [0;0;2]].
 Proof. exact TEB.TEBProofs.teb_history_wraps_grows_shrinks. Qed.
 Print Assumptions C20_backend_buffer_example.
+
+(* the same for the variant of M-TEB the translator reads from the source on this run *)
+Theorem C20_backend_buffer_refines_fifo_src : forall (A : Type) (dflt : A) (c0 : N) (ops : list (TEB.TEBModel.top A)),
+  TEB.TEBModel.teb_run A dflt Quill.TieTEB.src_tcfg (TEB.TEBModel.teb_init A dflt c0) ops =
+  TEB.TEBModel.fifo_run A (TEB.TEBModel.fifo_init A c0) ops.
+Proof. exact Quill.TieTEB.teb_refines_fifo_src. Qed.
+Print Assumptions C20_backend_buffer_refines_fifo_src.
